@@ -244,6 +244,25 @@ class PageRenderer:
             # For now, we assume header text matches the current page columns.
             pass
 
+            # Widths inherited from the body refer to all original columns. When
+            # page_by/subline_by removed columns from the display, label the
+            # displayed columns with the widths of the displayed body columns.
+            displayed_widths = getattr(page.table_attrs, "col_rel_width", None)
+            if (
+                header_copy.text is not None
+                and header_copy.col_rel_width is not None
+                and displayed_widths is not None
+            ):
+                if isinstance(header_copy.text, pl.DataFrame):
+                    n_cells = header_copy.text.shape[1]
+                else:
+                    n_cells = len(header_copy.text)
+                if (
+                    len(header_copy.col_rel_width) != n_cells
+                    and len(displayed_widths) == n_cells
+                ):
+                    header_copy.col_rel_width = list(displayed_widths)
+
             # Apply top border for first page/first header
             if (
                 page.is_first_page
